@@ -253,6 +253,44 @@ fn gen_server_caller_dies(first: &bool, ctx: &WorkerCtx) -> ExecResult {
     })
 }
 
+/// Messages queued while the process is busy in its handler (held at a gate) are handled in the order they were sent,
+/// whether addressed by identifier or by registered name.
+fn queued_burst_exec(n: &usize, ctx: &WorkerCtx) -> ExecResult {
+    let n = *n;
+    run_rt(async move {
+        let mut res = ExecResult::default();
+        let lw = match local_world(ctx).await { Ok(x) => x, Err(e) => { res.violations.push(("node could not start against the fake EPMD".into(), json!({"error": e}))); return res; } };
+        let log: Log = Arc::new(Mutex::new(vec![]));
+        let node = lw.node.clone();
+        lw.w.gates.set_active(&["proc.handle"]);
+        let slow = node.spawn(SlowRec { name: "slow".into(), log: log.clone(), held: false }).await.unwrap();
+        node.register(Atom::new("slowname"), slow.clone()).await.unwrap();
+        let probe = { let l = log.clone(); move || l.lock().unwrap().len() as u64 };
+        let mut expect: Vec<String> = vec![];
+        let mut send = |i: usize, by_name: bool| {
+            let m = OwnedTerm::Tuple(vec![OwnedTerm::atom("q"), OwnedTerm::Integer(i as i64)]);
+            expect.push(format!("msg:{}", crate::denote::denote(&m)));
+            (m, by_name)
+        };
+        let first = send(0, false);
+        let _ = node.send(&slow, first.0).await;
+        settle_local(&lw.w, &probe).await; // the process is now inside its handler for message 0
+        for i in 1..=n {
+            let (m, by_name) = send(i, i % 3 == 0);
+            if by_name { let _ = node.send_to_name(&Atom::new("slowname"), m).await; } else { let _ = node.send(&slow, m).await; }
+        }
+        lw.w.gates.release_all_and_deactivate();
+        settle_local(&lw.w, &probe).await;
+        let got: Vec<String> = log.lock().unwrap().iter().filter(|x| x.0 == "slow").map(|x| x.1.clone()).collect();
+        if got != expect {
+            res.violations.push(("messages queued behind a busy process were handled out of order, lost or duplicated".into(), json!({"queued": n, "expected": expect, "handled": got})));
+        }
+        res.steps = n as u64 + 1;
+        res.outcome = format!("queued burst {}", n);
+        res
+    })
+}
+
 /// gen_event handler: echoes a call, fails on the request `fail`.
 struct EchoHandler;
 impl edp_node::gen_event::GenEventHandler for EchoHandler {
@@ -477,7 +515,21 @@ pub fn run(rep: &Report) -> Value {
         cases.extend(next.iter().cloned());
         frontier = next;
     }
+    // longer histories about links and monitors: every sequence of up to 5 operations over {link, unlink, monitor x2,
+    // demonitor, fail} on the pair (p0, p1) and the monitor of p2 - the notices of a terminated process, exactly once each
+    {
+        let lm = [Op::Link(0, 1), Op::Unlink(0, 1), Op::Monitor(0, 1), Op::Monitor(2, 1), Op::DemonitorLast];
+        let mut fr: Vec<Vec<Op>> = vec![vec![]];
+        for _ in 0..(if thorough { 5 } else { 4 }) {
+            let mut next = vec![];
+            for s2 in &fr { for o in &lm { let mut x = s2.clone(); x.push(*o); next.push(x); } }
+            for x in &next { for f in [Op::Fail(1), Op::Fail(0)] { let mut y = x.clone(); y.push(f); if y.len() > depth { cases.push(y); } } }
+            fr = next;
+        }
+    }
     let seq_stats: Stats = for_all(rep, "sequential histories", &cases, |c, ctx| run_sequence(c, ctx));
+    let qb = [1usize, 2, 3, 4, 7, 33, 40];
+    let qb_stats: Stats = for_all(rep, "messages queued behind a busy process", &qb, |c, ctx| queued_burst_exec(c, ctx));
     let ge = [0usize, 1, 2, 3];
     let ge_stats: Stats = for_all(rep, "gen_event calls to installed, missing and failing handlers", &ge, |c, ctx| gen_event_calls(c, ctx));
     let gsd = [false, true];
@@ -489,7 +541,7 @@ pub fn run(rep: &Report) -> Value {
         let st = explore(rep, n, bound, std::time::Duration::from_secs(if thorough { 300 } else { 20 }), |ch, ctx| concurrent(ch, ctx, i));
         conc.push((n.to_string(), st));
     }
-    let states = seq_stats.executions + gs_stats.executions + ge_stats.executions + conc.iter().map(|c| c.1.executions).sum::<u64>();
+    let states = seq_stats.executions + gs_stats.executions + ge_stats.executions + qb_stats.executions + conc.iter().map(|c| c.1.executions).sum::<u64>();
     let transitions = seq_stats.transitions + conc.iter().map(|c| c.1.transitions).sum::<u64>();
     let mut samples = vec![json!({"sequential_history": format!("{:?}", cases[cases.len() / 3])}), json!({"sequential_history": format!("{:?}", cases[cases.len() - 11])})];
     for c in &conc { samples.extend(c.1.samples.iter().take(1).cloned()); }
@@ -502,6 +554,6 @@ pub fn run(rep: &Report) -> Value {
         "sequential": {"histories": seq_stats.executions, "depth": depth, "alphabet": format!("{:?}", alphabet), "distinct_outcomes": seq_stats.distinct_outcomes},
         "concurrent": conc.iter().map(|(n, s)| json!({"scenario": n, "executions": s.executions, "deviation_bound_completed": s.bound_completed, "distinct_outcomes": s.distinct_outcomes, "outcomes": s.outcomes, "unstable_failures_not_reported": s.unstable})).collect::<Vec<_>>(),
         "distinct_outcomes": seq_stats.distinct_outcomes + conc.iter().map(|c| c.1.distinct_outcomes).sum::<usize>(),
-        "rule": format!("(sequential) every history of <= {} operations over an 18-operation alphabet (spawn, register/unregister two names, send by pid and by name, link/unlink, monitor/demonitor, process failure) on a real started Node with instrumented processes, compared step by step and at the end with a reference node model; (concurrent) seven two-driver scenarios explored under gate hooks in spawn, registry and exit propagation plus cooperative-budget preemption (each driver operation may be left with 0..5 units of tokio's per-poll budget, which makes it yield at its (k+1)-th resource await) with a deviation bound of {}", depth, bound),
+        "rule": format!("(sequential) every history of <= {} operations over an 18-operation alphabet (spawn, register/unregister two names, send by pid and by name, link/unlink, monitor/demonitor, process failure) on a real started Node with instrumented processes, compared step by step and at the end with a reference node model, plus every history of up to 4 (5) link/unlink/monitor/demonitor operations followed by a process failure; (concurrent) seven two-driver scenarios explored under gate hooks in spawn, registry and exit propagation plus cooperative-budget preemption (each driver operation may be left with 0..5 units of tokio's per-poll budget, which makes it yield at its (k+1)-th resource await) with a deviation bound of {}", depth, bound),
     })
 }
